@@ -559,3 +559,277 @@ theorem popEarlyTerminations_ok {p p' : Partition} {m : Nat} {res : List (Int ×
 
 end Partition
 end BA.Sector
+
+namespace BA.Sector
+open BA BA.NatSet
+
+theorem replaceSectorsQ_ok {qs : QuantSpec} {q q' : Queue} {old new : List SectorInfo}
+    {oldNs newNs : NatSet} {pd : PowerPair} {pl fd : Int}
+    (h : replaceSectorsQ qs q old new = .ok (q', oldNs, newNs, pd, pl, fd)) :
+    newNs = ofList (nums new) := by
+  unfold replaceSectorsQ at h
+  cases hr : removeActiveSectors qs q old with
+  | error e => simp [hr] at h
+  | ok r =>
+    obtain ⟨q1, a, b, c, d⟩ := r
+    simp only [hr] at h
+    cases ha : addActiveSectors qs q1 new with
+    | error e => simp [ha] at h
+    | ok r2 =>
+      obtain ⟨q2, ns, pw, pl2, f2⟩ := r2
+      obtain ⟨_, e1, _⟩ := addActiveSectors_ok ha
+      simp only [ha, Except.ok.injEq, Prod.mk.injEq] at h
+      rw [← h.2.2.1, e1]
+
+/-- set arguments of a call are bitfields (duplicate-free) -/
+def OpWF : Op → Prop
+  | .recordFaults sn _ => sn.Nodup
+  | .declareFaultsRecovered sn => sn.Nodup
+  | .terminateSectors _ sn => sn.Nodup
+  | .recordSkippedFaults _ sk => sk.Nodup
+  | .rescheduleExpirations _ sn => sn.Nodup
+  | _ => True
+
+namespace Partition
+
+theorem setInv_addFaults {p p' : Partition} {qs : QuantSpec} {sn : NatSet} {infos : List SectorInfo}
+    {fe : Int} {delta nf : PowerPair} (hi : SetInv p) (hn : sn.Nodup)
+    (h : p.addFaults qs sn infos fe = .ok (p', delta, nf)) : SetInv p' := by
+  obtain ⟨q', sel, _, _, _, hv, e⟩ := addFaults_ok h
+  subst e
+  apply setInv_of_validate hv
+  · exact hi.nodupS
+  · exact nodup_diff hi.nodupU
+  · exact nodup_union hi.nodupF hn
+  · exact hi.nodupR
+  · intro x hx
+    simp only [mem_diff, mem_inter, mem_union] at hx ⊢
+    intro hf
+    rcases hf with hf | hf
+    · exact (hi.unprovenSub x hx.1).2.2 hf
+    · exact hx.2 ⟨hf, hx.1⟩
+
+theorem setInv_removeRecoveries {p : Partition} (ns : NatSet) (pw : PowerPair)
+    (hv : (p.removeRecoveries ns pw).validate = .ok ()) (hi : SetInv p) :
+    SetInv (p.removeRecoveries ns pw) := by
+  obtain ⟨e1, e2, e3, e4, _, _, _, _, _, e5⟩ := removeRecoveries_eq p ns pw
+  apply setInv_of_validate hv
+  · rw [e1]; exact hi.nodupS
+  · rw [e2]; exact hi.nodupU
+  · rw [e3]; exact hi.nodupF
+  · rw [e5]; exact nodup_diff hi.nodupR
+  · rw [e2, e3]; intro x hx; exact (hi.unprovenSub x hx).2.2
+
+end Partition
+
+theorem setInv_stepE {env : Env} {p p' : Partition} {op : Op} {r : Ret} (hi : SetInv p)
+    (hw : OpWF op) (h : stepE env p op = .ok (p', r)) : SetInv p' := by
+  cases op with
+  | addSectors proven infos =>
+    simp only [stepE] at h
+    cases ha : p.addSectors env.qs proven infos with
+    | error e => simp [ha] at h
+    | ok x =>
+      obtain ⟨p1, pw, fee⟩ := x
+      simp only [ha, Except.ok.injEq, Prod.mk.injEq] at h
+      obtain ⟨rfl, _⟩ := h
+      obtain ⟨q', _, hnew, _, _, hv, e⟩ := Partition.addSectors_ok ha
+      apply Partition.setInv_of_validate hv
+      · subst e; cases proven <;> exact nodup_union hi.nodupS (nodup_ofList _)
+      · subst e; cases proven
+        · exact nodup_union hi.nodupU (nodup_ofList _)
+        · exact hi.nodupU
+      · subst e; cases proven <;> exact hi.nodupF
+      · subst e; cases proven <;> exact hi.nodupR
+      · subst e
+        cases proven
+        · intro x hx
+          simp only [Bool.false_eq_true, if_false, mem_union] at hx ⊢
+          rcases hx with hx | hx
+          · exact (hi.unprovenSub x hx).2.2
+          · intro hf; exact hnew x hx (hi.faultSub x hf).1
+        · intro x hx; exact (hi.unprovenSub x hx).2.2
+  | recordFaults sn fe =>
+    simp only [stepE] at h
+    cases ha : p.recordFaults env.tbl env.qs sn fe with
+    | error e => simp [ha] at h
+    | ok x =>
+      obtain ⟨p1, nfs, d, f⟩ := x
+      simp only [ha, Except.ok.injEq, Prod.mk.injEq] at h
+      obtain ⟨rfl, _⟩ := h
+      obtain ⟨_, _, newInfos, retrInfos, p2, _, _, hadd, e, hv⟩ := Partition.recordFaults_ok ha
+      have hn : (diff (diff (diff sn (inter p.recoveries sn)) p.terminated) p.faults).Nodup :=
+        nodup_diff (nodup_diff (nodup_diff hw))
+      have h2 : SetInv p2 := by
+        by_cases hne : (!newInfos.isEmpty) = true
+        · simp only [hne, if_true] at hadd
+          exact Partition.setInv_addFaults hi hn hadd
+        · simp only [hne, Bool.false_eq_true, if_false] at hadd
+          rw [hadd.1]; exact hi
+      by_cases hre : (!retrInfos.isEmpty) = true
+      · simp only [hre, if_true] at e
+        subst e
+        exact Partition.setInv_removeRecoveries _ _ hv h2
+      · simp only [hre, Bool.false_eq_true, if_false] at e
+        subst e; exact h2
+  | declareFaultsRecovered sn =>
+    simp only [stepE] at h
+    cases ha : p.declareFaultsRecovered env.tbl sn with
+    | error e => simp [ha] at h
+    | ok x =>
+      obtain ⟨p1, u⟩ := x
+      cases u
+      simp only [ha, Except.ok.injEq, Prod.mk.injEq] at h
+      obtain ⟨rfl, _⟩ := h
+      obtain ⟨_, infos, _, hv, e⟩ := Partition.declareFaultsRecovered_ok ha
+      subst e
+      apply Partition.setInv_of_validate hv
+      · exact hi.nodupS
+      · exact hi.nodupU
+      · exact hi.nodupF
+      · exact nodup_union hi.nodupR (nodup_diff (nodup_inter hw))
+      · intro x hx; exact (hi.unprovenSub x hx).2.2
+  | recoverFaults =>
+    simp only [stepE] at h
+    cases ha : p.recoverFaults env.tbl env.qs with
+    | error e => simp [ha] at h
+    | ok x =>
+      obtain ⟨p1, pw⟩ := x
+      simp only [ha, Except.ok.injEq, Prod.mk.injEq] at h
+      obtain ⟨rfl, _⟩ := h
+      obtain ⟨infos, q', _, _, hv, e⟩ := Partition.recoverFaults_ok ha
+      subst e
+      apply Partition.setInv_of_validate hv
+      · exact hi.nodupS
+      · exact hi.nodupU
+      · exact nodup_diff hi.nodupF
+      · simp
+      · intro x hx
+        simp only [mem_diff]
+        intro hf; exact (hi.unprovenSub x hx).2.2 hf.1
+  | activateUnproven =>
+    simp only [stepE, Partition.activateUnproven, Except.ok.injEq, Prod.mk.injEq] at h
+    obtain ⟨rfl, _⟩ := h
+    exact ⟨hi.nodupS, by simp, hi.nodupF, hi.nodupR, hi.termSub, hi.faultSub, hi.recSub, by simp⟩
+  | recordMissedPost fe =>
+    simp only [stepE] at h
+    cases ha : p.recordMissedPost env.qs fe with
+    | error e => simp [ha] at h
+    | ok x =>
+      obtain ⟨p1, d, pen, nf⟩ := x
+      simp only [ha, Except.ok.injEq, Prod.mk.injEq] at h
+      obtain ⟨rfl, _⟩ := h
+      obtain ⟨q', _, _, _, _, hv, e⟩ := Partition.recordMissedPost_ok ha
+      subst e
+      apply Partition.setInv_of_validate hv
+      · exact hi.nodupS
+      · simp
+      · exact nodup_diff hi.nodupS
+      · simp
+      · simp
+  | popExpiredSectors u =>
+    simp only [stepE] at h
+    cases ha : p.popExpiredSectors u with
+    | error e => simp [ha] at h
+    | ok x =>
+      obtain ⟨p1, es⟩ := x
+      simp only [ha, Except.ok.injEq, Prod.mk.injEq] at h
+      obtain ⟨rfl, _⟩ := h
+      obtain ⟨hu, hr, _, _, _, eq, hv, e⟩ := Partition.popExpiredSectors_ok ha
+      subst e
+      apply Partition.setInv_of_validate hv
+      · exact hi.nodupS
+      · exact hi.nodupU
+      · exact nodup_diff hi.nodupF
+      · exact hi.nodupR
+      · simp [hu]
+  | terminateSectors ep sn =>
+    simp only [stepE] at h
+    cases ha : p.terminateSectors env.tbl env.qs ep sn with
+    | error e => simp [ha] at h
+    | ok x =>
+      obtain ⟨p1, es, rup⟩ := x
+      simp only [ha, Except.ok.injEq, Prod.mk.injEq] at h
+      obtain ⟨rfl, _⟩ := h
+      obtain ⟨_, infos, q', removed, rr, eq, sel, _, _, _, _, _, hv, e⟩ :=
+        Partition.terminateSectors_ok ha
+      subst e
+      apply Partition.setInv_of_validate hv
+      · exact hi.nodupS
+      · exact nodup_diff hi.nodupU
+      · exact nodup_diff hi.nodupF
+      · exact nodup_diff hi.nodupR
+      · intro x hx
+        simp only [mem_diff] at hx ⊢
+        intro hf; exact (hi.unprovenSub x hx.1).2.2 hf.1
+  | recordSkippedFaults fe sk =>
+    simp only [stepE] at h
+    cases ha : p.recordSkippedFaults env.tbl env.qs fe sk with
+    | error e => simp [ha] at h
+    | ok x =>
+      obtain ⟨p1, d, nf, rp, b⟩ := x
+      simp only [ha, Except.ok.injEq, Prod.mk.injEq] at h
+      obtain ⟨rfl, _⟩ := h
+      rcases Partition.recordSkippedFaults_ok ha with ⟨_, e, _⟩ | ⟨_, retrInfos, newInfos, p2, _, _, hadd, _, e, hv⟩
+      · rw [e]; exact hi
+      · subst e
+        have hn : (diff (diff sk p.terminated) p.faults).Nodup := nodup_diff (nodup_diff hw)
+        exact Partition.setInv_removeRecoveries _ _ hv (Partition.setInv_addFaults hi hn hadd)
+  | rescheduleExpirations ne sn =>
+    simp only [stepE] at h
+    cases ha : p.rescheduleExpirationsP env.tbl env.qs ne sn with
+    | error e => simp [ha] at h
+    | ok x =>
+      obtain ⟨p1, infos⟩ := x
+      simp only [ha, Except.ok.injEq, Prod.mk.injEq] at h
+      obtain ⟨rfl, _⟩ := h
+      obtain ⟨q', _, e⟩ := Partition.rescheduleExpirationsP_ok ha
+      subst e
+      exact ⟨hi.nodupS, hi.nodupU, hi.nodupF, hi.nodupR, hi.termSub, hi.faultSub, hi.recSub,
+        hi.unprovenSub⟩
+  | replaceSectors old new =>
+    simp only [stepE] at h
+    cases ha : p.replaceSectors env.qs old new with
+    | error e => simp [ha] at h
+    | ok x =>
+      obtain ⟨p1, d, pl, f⟩ := x
+      simp only [ha, Except.ok.injEq, Prod.mk.injEq] at h
+      obtain ⟨rfl, _⟩ := h
+      obtain ⟨q', oldNs, newNs, hq, _, hv, e⟩ := Partition.replaceSectors_ok ha
+      have hnn := replaceSectorsQ_ok hq
+      subst e
+      apply Partition.setInv_of_validate hv
+      · rw [hnn]; exact nodup_union (nodup_diff hi.nodupS) (nodup_ofList _)
+      · exact hi.nodupU
+      · exact hi.nodupF
+      · exact hi.nodupR
+      · intro x hx; exact (hi.unprovenSub x hx).2.2
+  | popEarlyTerminations m =>
+    simp only [stepE] at h
+    cases ha : p.popEarlyTerminations m with
+    | error e => simp [ha] at h
+    | ok x =>
+      obtain ⟨p1, res, n, more⟩ := x
+      simp only [ha, Except.ok.injEq, Prod.mk.injEq] at h
+      obtain ⟨rfl, _⟩ := h
+      obtain ⟨eq, _, e⟩ := Partition.popEarlyTerminations_ok ha
+      subst e
+      exact ⟨hi.nodupS, hi.nodupU, hi.nodupF, hi.nodupR, hi.termSub, hi.faultSub, hi.recSub,
+        hi.unprovenSub⟩
+
+theorem setInv_step {env : Env} {p : Partition} {op : Op} (hi : SetInv p) (hw : OpWF op) :
+    SetInv (step env p op).1 := by
+  unfold step
+  cases h : stepE env p op with
+  | error e => exact hi
+  | ok r => obtain ⟨p', ret⟩ := r; exact setInv_stepE hi hw h
+
+theorem setInv_run {env : Env} {p : Partition} {ops : List Op} (hi : SetInv p)
+    (hw : ∀ op ∈ ops, OpWF op) : SetInv (run env p ops) := by
+  induction ops generalizing p with
+  | nil => exact hi
+  | cons op rest ih =>
+    simp only [run]
+    exact ih (setInv_step hi (hw op (by simp))) (fun o ho => hw o (by simp [ho]))
+
+end BA.Sector
